@@ -521,8 +521,12 @@ def _history(rng, tier, force=None, how=None):
         c["T0"] = oc["start"]
     what = force or rng.choice(["rate", "rate_fine", "rate_fine", "t_tot", "hold", "dt", "T0", "s0", "rate+dt", "shape"])
     if what == "shape":
-        a, b = rng.choice([(4, 3), (2, 3), (3, 2), (4, 2), (1, 4), (5, 2)])
+        a, b = rng.choice([(4, 3), (2, 3), (3, 2), (4, 2), (2, 4), (5, 2)])   # transposed shape differs
         c["N_vials"] = [a, b, 1]
+        if not c["k"]["int"]:
+            c["k"]["int"] = rng.choice([5, 20])        # the interaction structure must matter
+        if not c["k"]["ext"]:
+            c["k"]["ext"] = rng.choice([5, 20])
         while stability(c) > 0.9:
             c["dt"] = c["dt"] / 2
     pre = {"how": how or rng.choice(["mutate", "assign"])}
@@ -644,6 +648,39 @@ def _last_step(rng, tier):
                 opcond=oc, T0=None, config=None, initIce=rng.choice(["indirect", "direct"]), threshold=0.9)
 
 
+def _long_hold(rng, tier):
+    """complete solidification during a LONG hold (the frozen batch equilibrates with the shelf), then
+    another ramp: every step must follow that step's shelf temperature to the end"""
+    hold = rng.choice([-20.0, -25.0])
+    dur = rng.choice([3000.0, 3400.0])
+    oc = dict(t_tot=0.0, start=5.0, stop=-50.0, rate=0.5, holds=[[hold, dur]], cnTemp=None)
+    oc["t_tot"] = (5.0 - hold) / 0.5 + dur + (hold + 50.0) / 0.5 + 40.0
+    return dict(kind="long-hold-then-ramp", N_vials=rng.choice([[3, 3, 1], [2, 2, 1]]),
+                k={"int": 20, "ext": 20, "s0": rng.choice([400, 600])}, dt=rng.choice([1.0, 2.0]),
+                seed=_seed(rng), seed_v=_seed(rng), opcond=oc, T0=None, config=None,
+                initIce=rng.choice(["indirect", "direct"]), threshold=0.9)
+
+
+def _dilute(rng, tier, j=None):
+    """configured solutions, incl. a very dilute one (the freezing-point-depression term is then
+    stiff near complete solidification), other melting point and heat capacities; long enough to
+    freeze completely"""
+    sf = [5e-4, 0.01, 0.2, 5e-4][j % 4] if j is not None else rng.choice([5e-4, 0.01, 0.2, 1e-3])
+    sol = {"solid_fraction": sf}
+    if rng.random() < 0.5:
+        sol["T_eq"] = rng.choice([-0.5, 0.25])
+    if rng.random() < 0.5:
+        sol["cp_s"] = rng.choice([1000, 1500.5])
+    cfg = {"solution": sol}
+    if rng.random() < 0.4:
+        cfg["water"] = rng.choice([{"cp_w": 4200}, {"cp_i": 2000}])
+    c = dict(kind="configured-solution", N_vials=rng.choice([[2, 2, 1], [1, 1, 1], [3, 1, 1]]),
+             k={"int": 5, "ext": 5, "s0": 100}, dt=2.0, seed=_seed(rng), seed_v=_seed(rng),
+             opcond=dict(t_tot=4400.0, start=5.0, stop=-30.0, rate=0.1, holds=None, cnTemp=None), T0=None,
+             config=cfg, initIce=rng.choice(["indirect", "direct"]), threshold=0.9)
+    return c
+
+
 def _late_cn(rng, tier):
     """controlled nucleation that triggers AFTER some vials have nucleated spontaneously: at the
     trigger step only the still-liquid supercooled vials may nucleate"""
@@ -667,6 +704,10 @@ def cases(rng, tier):
         yield _intcoef(rng, tier, j if j < 6 else None)
     for _ in range(2 if tier == "quick" else 20):
         yield _last_step(rng, tier)
+    for _ in range(2 if tier == "quick" else 10):
+        yield _long_hold(rng, tier)
+    for j in range(3 if tier == "quick" else 30):
+        yield _dilute(rng, tier, j if j < 4 else None)
     n, nh, nt = (40, 12, 6) if tier == "quick" else (1300, 150, 50)
     for _ in range(n):
         yield _structured(rng, tier)
